@@ -11,6 +11,110 @@
 
 use core::borrow::Borrow;
 
+/// Key equality / ordering used by the models. Semantically `==` / `Ord::cmp`; for
+/// strings it is written as an explicit byte loop with a *constant* trip count
+/// (`MAX_KEY` bytes, asserted to be enough) instead of `memcmp`: under CBMC the
+/// lengths of strings that come out of a `ProguardRecord::Method` are symbolic for
+/// symbolic execution (they are constants only for the solver), and `memcmp` is then
+/// unwound to the harness's unwinding bound at every comparison.
+pub const MAX_KEY: usize = 4;
+
+pub trait ModelKey {
+    fn keq(&self, other: &Self) -> bool;
+    fn kcmp(&self, other: &Self) -> core::cmp::Ordering;
+}
+
+impl ModelKey for str {
+    fn keq(&self, other: &str) -> bool {
+        let (a, b) = (self.as_bytes(), other.as_bytes());
+        #[cfg(kani)]
+        {
+            assert!(a.len() <= MAX_KEY && b.len() <= MAX_KEY, "model: key longer than MAX_KEY");
+            if a.len() != b.len() {
+                return false;
+            }
+            let mut eq = true;
+            let mut i = 0;
+            while i < MAX_KEY {
+                if i < a.len() && a[i] != b[i] {
+                    eq = false;
+                }
+                i += 1;
+            }
+            eq
+        }
+        #[cfg(not(kani))]
+        {
+            a == b
+        }
+    }
+    fn kcmp(&self, other: &str) -> core::cmp::Ordering {
+        let (a, b) = (self.as_bytes(), other.as_bytes());
+        #[cfg(kani)]
+        {
+            use core::cmp::Ordering::*;
+            assert!(a.len() <= MAX_KEY && b.len() <= MAX_KEY, "model: key longer than MAX_KEY");
+            let mut res = Equal;
+            let mut i = 0;
+            while i < MAX_KEY {
+                if res == Equal && i < a.len() && i < b.len() {
+                    if a[i] < b[i] {
+                        res = Less;
+                    } else if a[i] > b[i] {
+                        res = Greater;
+                    }
+                }
+                i += 1;
+            }
+            if res == Equal {
+                a.len().cmp(&b.len())
+            } else {
+                res
+            }
+        }
+        #[cfg(not(kani))]
+        {
+            a.cmp(b)
+        }
+    }
+}
+
+impl<'a> ModelKey for &'a str {
+    fn keq(&self, other: &Self) -> bool {
+        (**self).keq(*other)
+    }
+    fn kcmp(&self, other: &Self) -> core::cmp::Ordering {
+        (**self).kcmp(*other)
+    }
+}
+
+impl<A: ModelKey, B: ModelKey> ModelKey for (A, B) {
+    fn keq(&self, other: &Self) -> bool {
+        self.0.keq(&other.0) && self.1.keq(&other.1)
+    }
+    fn kcmp(&self, other: &Self) -> core::cmp::Ordering {
+        match self.0.kcmp(&other.0) {
+            core::cmp::Ordering::Equal => self.1.kcmp(&other.1),
+            o => o,
+        }
+    }
+}
+
+impl<A: ModelKey, B: ModelKey, C: ModelKey> ModelKey for (A, B, C) {
+    fn keq(&self, other: &Self) -> bool {
+        self.0.keq(&other.0) && self.1.keq(&other.1) && self.2.keq(&other.2)
+    }
+    fn kcmp(&self, other: &Self) -> core::cmp::Ordering {
+        match self.0.kcmp(&other.0) {
+            core::cmp::Ordering::Equal => match self.1.kcmp(&other.1) {
+                core::cmp::Ordering::Equal => self.2.kcmp(&other.2),
+                o => o,
+            },
+            o => o,
+        }
+    }
+}
+
 #[derive(Clone, Debug)]
 pub struct HashMap<K, V> {
     items: Vec<(K, V)>,
@@ -22,7 +126,7 @@ impl<K, V> Default for HashMap<K, V> {
     }
 }
 
-impl<K: Eq, V> HashMap<K, V> {
+impl<K: Eq + ModelKey, V> HashMap<K, V> {
     pub fn new() -> Self {
         Self { items: Vec::new() }
     }
@@ -35,13 +139,13 @@ impl<K: Eq, V> HashMap<K, V> {
         self.items.is_empty()
     }
 
-    fn pos<Q: ?Sized + Eq>(&self, k: &Q) -> Option<usize>
+    fn pos<Q: ?Sized + Eq + ModelKey>(&self, k: &Q) -> Option<usize>
     where
         K: Borrow<Q>,
     {
         let mut i = 0;
         while i < self.items.len() {
-            if self.items[i].0.borrow() == k {
+            if self.items[i].0.borrow().keq(k) {
                 return Some(i);
             }
             i += 1;
@@ -59,7 +163,7 @@ impl<K: Eq, V> HashMap<K, V> {
         }
     }
 
-    pub fn get<Q: ?Sized + Eq>(&self, k: &Q) -> Option<&V>
+    pub fn get<Q: ?Sized + Eq + ModelKey>(&self, k: &Q) -> Option<&V>
     where
         K: Borrow<Q>,
     {
@@ -69,7 +173,27 @@ impl<K: Eq, V> HashMap<K, V> {
         }
     }
 
-    pub fn contains_key<Q: ?Sized + Eq>(&self, k: &Q) -> bool
+    pub fn get_mut<Q: ?Sized + Eq + ModelKey>(&mut self, k: &Q) -> Option<&mut V>
+    where
+        K: Borrow<Q>,
+    {
+        match self.pos(k) {
+            Some(i) => Some(&mut self.items[i].1),
+            None => None,
+        }
+    }
+
+    pub fn remove<Q: ?Sized + Eq + ModelKey>(&mut self, k: &Q) -> Option<V>
+    where
+        K: Borrow<Q>,
+    {
+        match self.pos(k) {
+            Some(i) => Some(self.items.remove(i).1),
+            None => None,
+        }
+    }
+
+    pub fn contains_key<Q: ?Sized + Eq + ModelKey>(&self, k: &Q) -> bool
     where
         K: Borrow<Q>,
     {
@@ -131,7 +255,7 @@ impl<K> Default for HashSet<K> {
     }
 }
 
-impl<K: Eq> HashSet<K> {
+impl<K: Eq + ModelKey> HashSet<K> {
     pub fn new() -> Self {
         Self { items: Vec::new() }
     }
@@ -143,7 +267,7 @@ impl<K: Eq> HashSet<K> {
     pub fn contains(&self, k: &K) -> bool {
         let mut i = 0;
         while i < self.items.len() {
-            if &self.items[i] == k {
+            if self.items[i].keq(k) {
                 return true;
             }
             i += 1;
@@ -177,7 +301,7 @@ impl<K, V> Default for BTreeMap<K, V> {
     }
 }
 
-impl<K: Ord, V> BTreeMap<K, V> {
+impl<K: Ord + ModelKey, V> BTreeMap<K, V> {
     pub fn new() -> Self {
         Self { items: Vec::new() }
     }
@@ -194,7 +318,7 @@ impl<K: Ord, V> BTreeMap<K, V> {
     fn search(&self, k: &K) -> Result<usize, usize> {
         let mut i = 0;
         while i < self.items.len() {
-            match self.items[i].0.cmp(k) {
+            match self.items[i].0.kcmp(k) {
                 core::cmp::Ordering::Less => {}
                 core::cmp::Ordering::Equal => return Ok(i),
                 core::cmp::Ordering::Greater => return Err(i),
@@ -219,6 +343,24 @@ impl<K: Ord, V> BTreeMap<K, V> {
             Ok(i) => Some(&self.items[i].1),
             Err(_) => None,
         }
+    }
+
+    pub fn get_mut(&mut self, k: &K) -> Option<&mut V> {
+        match self.search(k) {
+            Ok(i) => Some(&mut self.items[i].1),
+            Err(_) => None,
+        }
+    }
+
+    pub fn remove(&mut self, k: &K) -> Option<V> {
+        match self.search(k) {
+            Ok(i) => Some(self.items.remove(i).1),
+            Err(_) => None,
+        }
+    }
+
+    pub fn contains_key(&self, k: &K) -> bool {
+        self.search(k).is_ok()
     }
 
     pub fn entry(&mut self, k: K) -> BEntry<'_, K, V> {
@@ -247,7 +389,7 @@ impl<K: Ord, V> BTreeMap<K, V> {
     }
 }
 
-impl<K: Ord, V> IntoIterator for BTreeMap<K, V> {
+impl<K: Ord + ModelKey, V> IntoIterator for BTreeMap<K, V> {
     type Item = (K, V);
     type IntoIter = std::vec::IntoIter<(K, V)>;
     fn into_iter(self) -> Self::IntoIter {
